@@ -190,8 +190,8 @@ def result_layer(ctx):
     ctx.sample('result-fields', {'field': fields[0], 'extracted': synthetic_extract(*fields[0])})
 
 
-def schema_probes(e):
-    """values at / next to / inside what the schema entry publishes -> [(tag, sValue)]"""
+def schema_probes(e, rnd=None, extra=0):
+    """values at / next to / inside what the schema entry publishes -> [(tag, sValue)]; thorough: + random values"""
     lo, hi = e['min'], e['max']
     if e['type'] == 'integer':
         if e['enum']:
@@ -201,11 +201,18 @@ def schema_probes(e):
         if lo is None or hi is None:
             return []
         lo, hi = int(lo), int(hi)
-        return [('min', str(lo)), ('max', str(hi)), ('below-min', str(lo - 1)), ('above-max', str(hi + 1))] + ([('inside', str((lo + hi) // 2))] if hi - lo > 1 else [])
+        rand = [t for _ in range(extra) for t in (('inside', str(rnd.randint(lo, hi))), ('below-min', str(lo - rnd.randint(1, 99))),
+                                                  ('above-max', str(hi + rnd.randint(1, 99))))]
+        return [('min', str(lo)), ('max', str(hi)), ('below-min', str(lo - 1)), ('above-max', str(hi + 1))] + ([('inside', str((lo + hi) // 2))] if hi - lo > 1 else []) + rand
     if e['type'] == 'number' and lo is not None and hi is not None:
         lo, hi = float(lo), float(hi)
         out = [('min', lo), ('max', hi), ('below-min', math.nextafter(lo, -math.inf) if lo else -2.0 ** -60),
                ('above-max', math.nextafter(hi, math.inf) if hi else 2.0 ** -60), ('inside', lo + (hi - lo) / 3)]
+        for _ in range(extra):
+            u, span = rnd.random(), (hi - lo) or 1.0
+            out += [('inside', lo + (hi - lo) * u), ('below-min', lo - span * (u + 1e-6) * rnd.choice([1e-9, 1e-3, 1.0])),
+                    ('above-max', hi + span * (u + 1e-6) * rnd.choice([1e-9, 1e-3, 1.0]))]
+        out = [(t, x) for t, x in out if (t != 'below-min' or x < lo) and (t != 'above-max' or x > hi) and (t != 'inside' or lo <= x <= hi)]
         return [(t, rp.fl(x)) for t, x in out]
     return []
 
@@ -222,7 +229,7 @@ def enforce_layer(ctx):
             rs = [r for r in t if r['name'] == e['name'] and r['kind'] in ('KFloat', 'KInt')]
             if not rs or len({(r['kind'], r['default'], r['min'], r['max'], tuple(r['runs']), r['units'], r['jtype'], r['deftxt']) for r in rs}) > 1:
                 continue
-            for tag, s in schema_probes(e):
+            for tag, s in schema_probes(e, ctx.rng, ctx.n(0, 6)):
                 for r in rs:
                     obs = rp.observe_reader(objs[r['cls']].ParameterDict[r['name']], r['name'], s, model)
                     cases.append(dict(j=j, i=idx[(r['cls'], r['name'])], v=F(float(s)), obs=obs, tag=tag, s=s, cls=r['cls'], name=r['name']))
